@@ -41,6 +41,9 @@ def gen_sel(rng, fft):
     start = rng.choice([None, 0, 0, 1, rng.randrange(fft)])
     stop = rng.choice([None, fft, fft, rng.randint(1, fft), fft + 3])
     step = rng.choice([None, 1, 2, 2, 3, 5])
+    if rng.random() < 0.15:
+        # a reversed selection (mirrored spectrum): slice(None, None, -1), slice(fft-1, None, -2), slice(-1, 2, -1)
+        return {"slice": [rng.choice([None, fft - 1, -1]), rng.choice([None, None, rng.randrange(fft)]), rng.choice([-1, -1, -2, -3])]}
     return {"slice": [start, stop, step]}
 
 
